@@ -6,18 +6,19 @@ use sc::syscall;
 /// See the [linux docs for details](https://man7.org/linux/man-pages/man2/copy_file_range.2.html#ERRORS)
 pub fn copy_file_range(
     src_fd: Fd,
-    src_offset: u64,
+    mut src_offset: u64,
     dest_fd: Fd,
-    dest_offset: u64,
+    mut dest_offset: u64,
     len: usize,
 ) -> crate::Result<usize> {
+    // The kernel takes the offsets by pointer (`loff_t *`), not by value
     let res = unsafe {
         syscall!(
             COPY_FILE_RANGE,
             src_fd.value(),
-            src_offset,
+            core::ptr::addr_of_mut!(src_offset),
             dest_fd.value(),
-            dest_offset,
+            core::ptr::addr_of_mut!(dest_offset),
             len,
             0
         )
